@@ -97,29 +97,34 @@ func encodeReflect(t reflect.Type) fileMaker {
 		if err := fw.WriteHeader(w); err != nil {
 			return err
 		}
+		// all records are encoded into ONE buffer first; every block is then handed to WriteBlock as a sub-slice of
+		// it (its capacity reaches into the following blocks): what a caller that batches encodings does. WriteBlock
+		// has no business writing into the caller's memory.
 		wb := avro.NewWriteBuf(nil)
-		count := 0
-		flush := func() error {
-			if count == 0 {
-				return nil
+		type span struct{ from, to, count int }
+		var spans []span
+		start, count := 0, 0
+		cut := func() {
+			if count > 0 {
+				spans = append(spans, span{start, wb.Len(), count})
 			}
-			if err := fw.WriteBlock(w, count, wb.Bytes()); err != nil {
-				return err
-			}
-			count = 0
-			wb.Reset()
-			return nil
+			start, count = wb.Len(), 0
 		}
 		for i, v := range vals {
 			codec.Write(wb, v.Addr().UnsafePointer())
 			count++
-			if wb.Len() >= cfg.Block || cfg.Flush[i] {
-				if err := flush(); err != nil {
-					return err
-				}
+			if wb.Len()-start >= cfg.Block || cfg.Flush[i] {
+				cut()
 			}
 		}
-		return flush()
+		cut()
+		data := wb.Bytes()
+		for _, sp := range spans {
+			if err := fw.WriteBlock(w, sp.count, data[sp.from:sp.to]); err != nil {
+				return err
+			}
+		}
+		return nil
 	}
 }
 
